@@ -820,11 +820,11 @@ class Image:
             Image: scaled image
 
         """
-        if not isinstance(scalar, float) or isinstance(scalar, int):
+        if not isinstance(scalar, (float, int)):
             raise ValueError
 
         result_image = self.copy()
-        result_image.img *= scalar
+        result_image.img = result_image.img * scalar
         return result_image
 
     __rmul__ = __mul__
